@@ -1434,6 +1434,8 @@ class GAM(Core, MetaTermMixin):
         X = np.zeros((n, self.statistics_['m_features']))
         for term_, x in zip(terms, Xs):
             X[:, term_.feature] = x.ravel()
+        if getattr(self.terms[term], 'by', None) is not None:
+            X[:, self.terms[term].by] = 1.0
         return X
 
     def generate_X_grid(self, term, n=100, meshgrid=False):
